@@ -1,8 +1,12 @@
 ENGINES = [
  dict(name="vsched", path="engine/vsched/", serves_properties=["C05", "C10"],
-      kind_free_text="controlled scheduler (libc interposition of pthread create/join/exit/mutex/cond, futex baton hand-off) + stateless preemption-bounded DFS explorer, one forked child per execution; replay of a schedule is deterministic and checked twice"),
- dict(name="bsx", path="harness/", serves_properties=["C13"],
-      kind_free_text="bounded-scope exhaustive enumeration / explicit-state BFS over op histories of the real code against a boring reference model (C++ harnesses linked to the code built from /repo)"),
+      kind_free_text="controlled scheduler (libc interposition of pthread create/join/exit/mutex/cond in the harness executable, or LD_PRELOAD for unmodified executables; futex baton hand-off) + stateless preemption-bounded DFS explorer (engine/vsched/explore.h), one forked child per execution; a schedule is a choice sequence, replayed twice before any failure is believed; forced thread-id schedules for model conformance"),
+ dict(name="tlc", path="models/", serves_properties=["C05"],
+      kind_free_text="TLA+ model (one action per scheduler segment) checked exhaustively by TLC without preemption bound; state graph dumped and bound to the implementation by two-way trace conformance (harness/C05_model.py)"),
+ dict(name="bsx", path="harness/", serves_properties=["C01", "C02", "C03", "C04", "C06", "C07", "C08", "C09", "C11", "C12", "C13", "C14", "C15", "C16", "C17", "C18", "C19", "C20"],
+      kind_free_text="bounded-scope exhaustive enumeration of inputs / explicit-state search over operation histories of the real code against a boring reference model or metamorphic relation (C++ harnesses linked to or compiled from the source tree, Python harnesses driving the built executables and scripts); sharded, failures confirmed by single-case replay"),
 ]
-NOTES = "All checks go through ./check <ID> --tier quick|thorough; see DESIGN.md. known_findings.json lists repaired and known defects."
+NOTES = ("All checks go through ./check <ID> --tier quick|thorough (driver lib/vcheck.py); DESIGN.md describes engines, per-property alphabets/bounds/oracles, "
+         "the defects found (fixed by 'fix:' commits in /repo or listed as known) and the seeded changes each check catches. known_findings.json and "
+         "known_findings.d/*.json are the committed known-findings files; notes/Cxx.md are the per-property working notes.")
 NOT_APPLICABLE = {}
